@@ -22,6 +22,31 @@ def main():
     replay = None
     if args.replay:
         replay = json.load(open(args.replay))
+    if args.tier == "thorough" and not replay:
+        # thorough = the thorough plan of the check, repeated with fresh seeds (seed, seed+1000, ...) until the round or
+        # time budget is used up; everything accumulates into one report / evidence file
+        import time
+        rounds = int(os.environ.get("VERIF_ROUNDS", "6"))
+        budget = float(os.environ.get("VERIF_THOROUGH_BUDGET_S", "600"))
+        t0 = time.time()
+        rep._defer = True
+        done = 0
+        for r in range(rounds):
+            if r > 0 and time.time() - t0 > budget:
+                break
+            try:
+                mod.run(rep, args.tier, seed + 1000 * r, None)
+            except Exception:
+                traceback.print_exc()
+                rep.not_shown("check crashed", {"round": r, "seed": seed + 1000 * r, "traceback": traceback.format_exc()[-3000:]})
+            done += 1
+            if rep.violations or rep.unproved:
+                break
+        rep._defer = False
+        rep.coverage["thorough_rounds"] = done
+        rep.coverage["thorough_round_seeds"] = [seed + 1000 * r for r in range(done)]
+        fa = getattr(rep, "_finish_args", None) or dict(level="proof", trusted_base=common.STD_TRUSTED, rule="check crashed")
+        sys.exit(rep.finish(**fa))
     try:
         rc = mod.run(rep, args.tier, seed, replay)
     except Exception:
